@@ -12,6 +12,7 @@ import (
 	"time"
 
 	"github.com/php-any/origami/data"
+	ohttp "github.com/php-any/origami/std/net/http"
 
 	"verif/harness/vh"
 )
@@ -159,10 +160,51 @@ func (strFn) GetVariables() []data.Variable {
 	return []data.Variable{data.NewVariable("v", 0, nil)}
 }
 
-// server is one in-process origami HTTP server with the two helper functions registered.
+// hotFn is verif_hot($path, $closure): serves the path through std/net/http's exported HotHandler
+// (the hot-reload route: the handler runs on a TempVM layered over the server's VM) — nothing in the
+// repository constructs a HotHandler, an embedding program does, so the harness does it the same way
+// ServerHandleMethod.Call builds a Handler: the closure's statement + a context made from the
+// registering call's context.
+type hotFn struct {
+	mu     sync.Mutex
+	routes map[string]nethttp.Handler
+}
+
+func (h *hotFn) Call(ctx data.Context) (data.GetValue, data.Control) {
+	pv, _ := ctx.GetIndexValue(0)
+	fv, _ := ctx.GetIndexValue(1)
+	ps, ok1 := pv.(data.AsString)
+	f, ok2 := fv.(*data.FuncValue)
+	if !ok1 || !ok2 || len(f.Value.GetVariables()) < 2 {
+		return nil, data.NewErrorThrow(nil, fmt.Errorf("verif_hot(path, closure($req, $res))"))
+	}
+	h.mu.Lock()
+	h.routes[ps.AsString()] = ohttp.HotHandler{Value: f.Value, Ctx: ctx.CreateContext(f.Value.GetVariables())}
+	h.mu.Unlock()
+	return nil, nil
+}
+func (h *hotFn) GetName() string { return "verif_hot" }
+func (h *hotFn) GetParams() []data.GetValue {
+	return []data.GetValue{data.NewParameter("path", 0), data.NewParameter("handler", 1)}
+}
+func (h *hotFn) GetVariables() []data.Variable {
+	return []data.Variable{data.NewVariable("path", 0, nil), data.NewVariable("handler", 1, nil)}
+}
+
+func (h *hotFn) lookup(url string) nethttp.Handler {
+	if i := strings.IndexByte(url, '?'); i >= 0 {
+		url = url[:i]
+	}
+	h.mu.Lock()
+	defer h.mu.Unlock()
+	return h.routes[url]
+}
+
+// server is one in-process origami HTTP server with the helper functions registered.
 type server struct {
 	env  *vh.HTTPEnv
 	gate *gateFn
+	hot  *hotFn
 }
 
 func newServer(script string) (*server, error) {
@@ -171,8 +213,10 @@ func newServer(script string) (*server, error) {
 		return nil, fmt.Errorf("bootstrap: %s", o.String())
 	}
 	g := &gateFn{ctrl: map[int]*reqCtl{}}
+	hot := &hotFn{routes: map[string]nethttp.Handler{}}
 	env.VM.AddFunc(g)
 	env.VM.AddFunc(strFn{})
+	env.VM.AddFunc(hot)
 	o = env.RunSource(script, "/verif-c11.php")
 	if o.Kind != "ok" {
 		return nil, fmt.Errorf("server script: %s", o.String())
@@ -180,7 +224,7 @@ func newServer(script string) (*server, error) {
 	if env.Mux == nil {
 		return nil, fmt.Errorf("server script did not expose a mux")
 	}
-	return &server{env: env, gate: g}, nil
+	return &server{env: env, gate: g, hot: hot}, nil
 }
 
 // wire is what one request looks like on the wire.
@@ -246,7 +290,11 @@ func (s *server) serve(w wire) (r resp) {
 			}
 		}
 	}()
-	s.env.Mux.ServeHTTP(rw, w.build())
+	if h := s.hot.lookup(w.URL); h != nil {
+		h.ServeHTTP(rw, w.build())
+	} else {
+		s.env.Mux.ServeHTTP(rw, w.build())
+	}
 	return resp{Code: rw.Code, Header: canonHeader(rw.Header()), Body: rw.Body.String()}
 }
 
